@@ -610,10 +610,6 @@ class Consumer(object):
         # Got a response, clear our outstanding request deferred
         self._request_d = None
 
-        # Successful request, reset our retry delay, count, etc
-        self.retry_delay = self.retry_init_delay
-        self._fetch_attempt_count = 1
-
         [response] = responses
         if hasattr(response, "offsets"):
             # It's a response to an OffsetRequest
@@ -630,6 +626,11 @@ class Consumer(object):
             else:
                 self._fetch_offset = response.offset + 1
                 self._last_committed_offset = response.offset
+
+        # Successful request (with a reply we could use: one we cannot ends in
+        # _handle_offset_error), reset our retry delay, count, etc
+        self.retry_delay = self.retry_init_delay
+        self._fetch_attempt_count = 1
         self._do_fetch()
 
     def _handle_offset_error(self, failure):
